@@ -326,8 +326,7 @@ def check(case) -> Verdict:
                 return bad('cwd/%s' % host, probe=pid, expected_cwd=unroot(subst(e['cwd'])),
                            received=_clip(got, unroot))
             exp_stdin = subst_stdin(e, subst)
-            preds = model.kf1_predictions([[subst(t), pgm] for t, pgm in e['parts']])
-            if got['stdin'] in preds:
+            if model.kf1_matches([[subst(t), pgm] for t, pgm in e['parts']], got['stdin']):
                 known_hit = bad('stdin/%s/program-output-before-earlier-parts' % host, known=KF1, probe=pid,
                                 expected_stdin=short(exp_stdin), parts=[[short(t), pgm] for t, pgm in e['parts']],
                                 received=_clip(got, unroot))
@@ -346,10 +345,16 @@ def check(case) -> Verdict:
     if act and act['k'] == 'source' and act['variant'] == 'probe-is-interpreter' and records[act['probe']]:
         path = records[act['probe']][0]['argv'][-1]
         content = source_files.get(path)
-        lines = [_act_line_translation(ws_line) for ws_line in act['lines']]
-        want = '\n'.join(lines)
-        if content is None or content not in (want, want + '\n'):
-            return bad('source-interpreter/source-file-contents', expected=want, observed_contents=content)
+        # "All lines of the act phase are part of the source code": the rendered phase = the lines + one empty line
+        # before the next header / end of file; whether empty lines at the end of a phase belong to it is not said
+        lines = [_act_line_translation(ws_line) for ws_line in act['lines']] + ['']
+        n_min = max([i + 1 for i, l in enumerate(lines) if l.strip() != ''] or [0])
+        wants = set()
+        for n in range(n_min, len(lines) + 1):
+            want = '\n'.join(lines[:n])
+            wants.update((want, want + '\n'))
+        if content is None or content not in wants:
+            return bad('source-interpreter/source-file-contents', expected=sorted(wants), observed_contents=content)
 
     # ---- the stored outcome ------------------------------------------------------------------------------
     if exp['act'] is not None and act and act['k'] != 'null' and exp['verdict'] is not None:
